@@ -22,7 +22,7 @@ PRELUDE = r'''
 struct VT2 { enum Sign sign; int pointer; _Bool integral; size_t size; };
 enum VKind { K_KNOWN, K_POSSIBLE, K_IMPOSSIBLE };
 enum VBound { BOUND_Upper, BOUND_Lower, BOUND_Point };
-struct VValue { enum VKind kind; enum VBound bound; bigint intvalue; _Bool isInt; };
+struct VValue { enum VKind kind; enum VBound bound; bigint intvalue; _Bool isInt; _Bool isSymbolic; };
 '''
 
 CONTRACT = r'''
@@ -64,8 +64,12 @@ void h_helper(void) {
 }
 void h_cast_guard(void) {
     struct VT2 src, dst; mk_types(&src, &dst); _Bool has_src = nondet_bool(), nn = nondet_bool();
-    struct VValue v; v.kind = (enum VKind)nondet_int(); v.isInt = nondet_bool(); v.bound = BOUND_Point; v.intvalue = 0; __CPROVER_assume(v.kind >= K_KNOWN && v.kind <= K_IMPOSSIBLE);
+    struct VValue v; v.kind = (enum VKind)nondet_int(); v.isInt = nondet_bool(); v.isSymbolic = !v.isInt && nondet_bool(); v.bound = BOUND_Point; v.intvalue = 0; __CPROVER_assume(v.kind >= K_KNOWN && v.kind <= K_IMPOSSIBLE);
     _Bool passed = cast_guard(&v, has_src ? &src : NULL, &dst, nn);
+    /* a symbolic value (the operand equals / differs from another expression by an offset) is a fact about the result of an
+       integer cast only through a preserving conversion; non-negativity of the operand is not known for it */
+    if (passed && v.isSymbolic && has_src && src.integral && src.pointer == 0 && dst.integral && dst.pointer == 0)
+        __CPROVER_assert(PRESERVES(&src, &dst, nn), "cast: a symbolic value passes only a value preserving conversion");
     /* an impossible integer value of an integer operand reaches an integer cast only through a preserving conversion */
     if (passed && v.kind == K_IMPOSSIBLE && v.isInt && has_src && src.integral && src.pointer == 0 && dst.integral && dst.pointer == 0)
         __CPROVER_assert(PRESERVES(&src, &dst, nn), "cast: an impossible value passes only a value preserving conversion");
@@ -129,7 +133,7 @@ def build(ctx):
     # ---- the cast guard in setTokenValue
     g = extract.locate_function("lib/vf_settokenvalue.cpp", r'^\s*void\s+setTokenValue\s*\(\s*Token\s*\*\s*tok\s*,')
     gm = extract.mask(g.text)
-    s = list(re.finditer(r'if \(value\.isImpossible\(\) && value\.isIntValue\(\) && valueType\.isIntegral\(\) && valueType\.pointer == 0 &&', gm))
+    s = list(re.finditer(r'if \((?:\(\()?value\.isImpossible\(\) && value\.isIntValue\(\)(?:\) \|\| value\.isSymbolicValue\(\)\))? && valueType\.isIntegral\(\) && valueType\.pointer == 0 &&', gm))
     e = list(re.finditer(r'setTokenValueCast\(parent, valueType, std::move\(value\), settings\)\s*;', gm))
     if len(s) != 1 or len(e) != 1 or e[0].start() < s[0].end():
         raise extract.ExtractError("setTokenValue: guard in front of setTokenValueCast not found")
@@ -143,6 +147,7 @@ def build(ctx):
     tc3, k = extract.apply_rules(tc2, extract.GENERIC + _common.VT_RULES + [
         (r'\bvalue\.isImpossible\(\)', '(value->kind == K_IMPOSSIBLE)', 1, 1),
         (r'\bvalue\.isIntValue\(\)', 'value->isInt', 1, 1),
+        (r'\bvalue\.isSymbolicValue\(\)', 'value->isSymbolic', 0, 1),
         (r'\bvalueType\.isIntegral\(\)', 'dst->integral', 1, 1),
         (r'\bvalueType\.pointer\b', 'dst->pointer', 1, 1),
         (r'\btok->valueType\(\) && tok->valueType\(\)->isIntegral\(\) && tok->valueType\(\)->pointer == 0', '(src != NULL && src->integral && src->pointer == 0)', 1, 1),
